@@ -134,8 +134,64 @@ M = [
      '    W[W != 0] = 1\n', '    W[W > 0] = 1\n', []),
     ('L05 body of binarize changed (seen through efficiency_bin)', 'eff', 'bct/utils/other.py',
      '    W[W != 0] = 1\n', '    W[W > 0] = 1\n', []),
+    ('S01 betweenness_wei: the `S` mask of the next batch dropped (the repaired defect put back)', 'betw', 'bct/algorithms/centrality.py',
+     'V, = np.where(np.logical_and(D == np.min(D[S]), S))', 'V, = np.where(D == np.min(D[S]))', []),
+    ('S02 distance_wei_floyd: the zero mask of the `inv` branch dropped (the repaired defect put back)', 'floyd', 'bct/algorithms/distance.py',
+     '                SPL[adjacency == 0] = np.inf\n', '', []),
     ('L04 body of cuberoot changed (seen through the weighted clustering routines)', 'clust', 'bct/utils/miscellaneous_utilities.py',
      '    return np.sign(x) * np.abs(x)**(1 / 3)\n', '    return np.abs(x)**(1 / 3)\n', []),
+]
+
+
+def ren(func, *pairs):
+    """text -> text: simultaneous whole-word replacements inside the top-level function `func`"""
+    def f(t):
+        a = t.index('\ndef %s(' % func) + 1
+        m = re.search(r'\n(def |class |@)', t[a:])
+        b = a + m.start() if m else len(t)
+        d = dict(pairs)
+        return t[:a] + re.sub(r'\b(%s)\b' % '|'.join(re.escape(k) for k in d), lambda mm: d[mm.group(1)], t[a:b]) + t[b:]
+    return f
+
+
+def rep(old, new):
+    def f(t):
+        assert old in t, old
+        return t.replace(old, new, 1)
+    return f
+
+
+def seq(*fs):
+    def f(t):
+        for g in fs:
+            t = g(t)
+        return t
+    return f
+
+
+# renamings of function-local variables: (id, family, relative file, text -> text, True = must still pass / False = must fail)
+R = [
+    ('R01 two locals of betweenness_bin exchanged consistently (NPd <-> NSPd)', 'betw', 'bct/algorithms/centrality.py',
+     ren('betweenness_bin', ('NPd', 'NSPd'), ('NSPd', 'NPd')), True),
+    ('R02 hops -> nhops in distance_wei_floyd, with a `pass` and a bare string in the loop', 'floyd', 'bct/algorithms/distance.py',
+     seq(ren('distance_wei_floyd', ('hops', 'nhops')), rep('        i2k_k2j = ', "        pass\n        'string used as a comment'\n        i2k_k2j = ")), True),
+    ('R03 every local of clustering_coef_bd renamed', 'clust', 'bct/algorithms/clustering.py',
+     ren('clustering_coef_bd', ('S', 'sym'), ('K', 'degs'), ('cyc3', 'ntri'), ('CYC3', 'possible'), ('C', 'coef')), True),
+    ('R04 one use of NPd renamed only (a free name appears)', 'betw', 'bct/algorithms/centrality.py',
+     rep('        NSPd = NPd * (L == 0)\n', '        NSPd = walks * (L == 0)\n'), False),
+    ('R05 local renamed to the name of the numpy module (NPd -> np)', 'betw', 'bct/algorithms/centrality.py',
+     ren('betweenness_bin', ('NPd', 'np')), False),
+    ('R06 two locals merged (NPd -> NSPd)', 'betw', 'bct/algorithms/centrality.py', ren('betweenness_bin', ('NPd', 'NSPd')), False),
+    ('R07 local merged with the parameter (NPd -> G)', 'betw', 'bct/algorithms/centrality.py', ren('betweenness_bin', ('NPd', 'G')), False),
+    ('R08 capture: local csizes renamed, the canonical name now denotes a module-level list', 'comp', 'bct/algorithms/clustering.py',
+     seq(rep('    _, csizes = get_components(A)\n', '    _, sizes = get_components(A)\n'),
+         rep('def number_of_components(A):', 'csizes = [1]\n\n\ndef number_of_components(A):')), False),
+    ('R09 renaming combined with a real change (hops -> nhops, `<` for `>` in the update)', 'floyd', 'bct/algorithms/distance.py',
+     seq(ren('distance_wei_floyd', ('hops', 'nhops')), rep('        path = SPL > i2k_k2j\n', '        path = SPL < i2k_k2j\n')), False),
+    ('R10 switch -> other_edge in makerandCIJdegreesfixed', 'synth', 'bct/algorithms/reference.py',
+     ren('makerandCIJdegreesfixed', ('switch', 'other_edge'), ('t', 'tmp')), True),
+    ('R11 renaming combined with a real change in makerandCIJdegreesfixed (`switch <= i`)', 'synth', 'bct/algorithms/reference.py',
+     seq(ren('makerandCIJdegreesfixed', ('switch', 'other_edge')), rep('if other_edge < i:', 'if other_edge <= i:')), False),
 ]
 
 
@@ -194,13 +250,35 @@ def main():
                     status = 'FAIL'
             bad += status != 'ok'
             print('%-4s %s\n       reported: %s%s' % (status, mid, (probs[0][:230] if probs else '(none; Lean obligation of the primitive)'), extra))
+        for mid, fam, relf, fn_, must_pass in R:
+            root = os.path.join(tmp, 'm'); shutil.rmtree(root, ignore_errors=True); os.makedirs(root); copy_pkg(root)
+            p = os.path.join(root, relf)
+            t0 = open(p).read(); t1 = fn_(t0)
+            if t1 == t0:
+                print('FAIL %s: the edit changed nothing' % mid); bad += 1; continue
+            open(p, 'w').write(t1)
+            r = run(root, fam, gen)
+            probs = r['problems']
+            status = 'ok'
+            extra = ''
+            if must_pass and probs:
+                status = 'FAIL'
+            if lake:
+                failed, errs = lake_fails(lake, r['modules'][0])
+                extra = ' | lake build %s: %s %s' % (r['modules'][0], 'fails' if failed else 'passes', sorted(set(errs))[:3])
+                if failed == must_pass:
+                    status = 'FAIL'
+            elif not must_pass and not probs:
+                extra = ' | (no problem reported; the Lean obligation decides — run with --lake)'
+            bad += status != 'ok'
+            print('%-4s %s [%s]\n       reported: %s%s' % (status, mid, 'must pass' if must_pass else 'must fail', probs[0][:230] if probs else '(none)', extra))
         if lake:
             common.REPO = SRC
             cores.generate(lean_dir=lake)
     finally:
         common.REPO = SRC
         shutil.rmtree(tmp, ignore_errors=True)
-    print('%d mutants, %d failures' % (len(M), bad))
+    print('%d mutants, %d renamings, %d failures' % (len(M), len(R), bad))
     sys.exit(1 if bad else 0)
 
 
